@@ -620,6 +620,47 @@ func c05Exec(op string) (string, *Violation) {
 			out = append(out, fmt.Sprintf("%d:%d:%d:%v:%v", n.ID, n.Version, n.ChangesetID, n.Lat, n.Lon))
 		}
 		return string(data) + " " + strings.Join(out, ","), nil
+	case "jfields":
+		// scalar keys written for a flat record, in order
+		v, ok := c04NewRecord(f[1])
+		if !ok {
+			return "bad-op", nil
+		}
+		if len(f) > 2 {
+			for _, kv := range strings.Split(f[2], ",") {
+				p := strings.SplitN(kv, "=", 2)
+				val, _ := unhx(p[1])
+				if !c04SetField(v, p[0], val) {
+					return "bad-op", nil
+				}
+			}
+		}
+		data, err := json.Marshal(v.Addr().Interface())
+		if err != nil {
+			return "err", nil
+		}
+		return c05ScalarKeys(data, f[1]), nil
+	case "jdecode":
+		v, ok := c04NewRecord(f[1])
+		if !ok {
+			return "bad-op", nil
+		}
+		var kvs []string
+		if len(f) > 2 {
+			for _, kv := range strings.Split(f[2], ",") {
+				p := strings.SplitN(kv, "=", 2)
+				val, _ := unhx(p[1])
+				kvs = append(kvs, (&jw{}).str(p[0])+":"+c05JSONToken(f[1], p[0], val))
+			}
+		}
+		if err := json.Unmarshal([]byte("{"+strings.Join(kvs, ",")+"}"), v.Addr().Interface()); err != nil {
+			return "err", nil
+		}
+		var out []string
+		for _, fk := range c05Fields(f[1]) {
+			out = append(out, fk[0]+"="+hx(c03FieldText(v.FieldByName(fk[0]))))
+		}
+		return strings.Join(out, ","), nil
 	case "rt":
 		seed, _ := strconv.ParseUint(f[2], 10, 64)
 		mode, _ := strconv.Atoi(f[3])
@@ -647,6 +688,98 @@ func c05Exec(op string) (string, *Violation) {
 		return "ok", nil
 	}
 	return "bad-op", nil
+}
+
+// json key per Go field of the flat records, written independently of the library's tags (osmjson vocabulary)
+var c05KeyName = map[string]map[string]string{
+	"Node":             {"ID": "id", "Lat": "lat", "Lon": "lon", "User": "user", "UserID": "uid", "Visible": "visible", "Version": "version", "ChangesetID": "changeset", "Timestamp": "timestamp", "Committed": "committed"},
+	"Way":              {"ID": "id", "User": "user", "UserID": "uid", "Visible": "visible", "Version": "version", "ChangesetID": "changeset", "Timestamp": "timestamp", "Committed": "committed"},
+	"Relation":         {"ID": "id", "User": "user", "UserID": "uid", "Visible": "visible", "Version": "version", "ChangesetID": "changeset", "Timestamp": "timestamp", "Committed": "committed"},
+	"Member":           {"Type": "type", "Ref": "ref", "Role": "role", "Version": "version", "ChangesetID": "changeset", "Lat": "lat", "Lon": "lon", "Orientation": "orientation"},
+	"Update":           {"Index": "index", "Version": "version", "Timestamp": "timestamp", "ChangesetID": "changeset", "Lat": "lat", "Lon": "lon", "Reverse": "reverse"},
+	"Bounds":           {"MinLat": "minlat", "MaxLat": "maxlat", "MinLon": "minlon", "MaxLon": "maxlon"},
+	"Changeset":        {"ID": "id", "User": "user", "UserID": "uid", "CreatedAt": "created_at", "ClosedAt": "closed_at", "Open": "open", "ChangesCount": "num_changes", "MinLat": "min_lat", "MaxLat": "max_lat", "MinLon": "min_lon", "MaxLon": "max_lon", "CommentsCount": "comments_count"},
+	"ChangesetComment": {"User": "user", "UserID": "uid", "Timestamp": "date", "Text": "text"},
+}
+
+// c05Fields: the scalar fields of the flat records in struct order (the XML attribute fields plus JSON-only scalars)
+func c05Fields(typ string) [][2]string {
+	fs := append([][2]string{}, c04RecordFields[typ]...)
+	if typ == "ChangesetComment" {
+		fs = append(fs, [2]string{"Text", "string"})
+	}
+	return fs
+}
+
+func c05Kind(typ, key string) string {
+	for gf, k := range c05KeyName[typ] {
+		if k == key {
+			for _, fk := range c05Fields(typ) {
+				if fk[0] == gf {
+					return fk[1]
+				}
+			}
+		}
+	}
+	return "string"
+}
+
+// c05JSONToken writes the JSON token for a field text (numbers and booleans bare, the rest as strings)
+func c05JSONToken(typ, key, text string) string {
+	switch c05Kind(typ, key) {
+	case "int", "int8", "float", "bool":
+		return text
+	}
+	return (&jw{}).str(text)
+}
+
+// c05ScalarKeys lists the scalar keys of a marshalled record in document order as key=hex(text); floats in
+// the shortest 'g' form (the form the ops are written in); the type shim key is left out
+func c05ScalarKeys(data []byte, typ string) string {
+	d := json.NewDecoder(bytes.NewReader(data))
+	d.UseNumber()
+	if t, err := d.Token(); err != nil || t != json.Delim('{') {
+		return "not-object"
+	}
+	var out []string
+	for d.More() {
+		kt, err := d.Token()
+		if err != nil {
+			return "unparsable"
+		}
+		key, _ := kt.(string)
+		var raw json.RawMessage
+		if err := d.Decode(&raw); err != nil {
+			return "unparsable"
+		}
+		if key == "type" && typ != "Member" {
+			continue
+		}
+		var v interface{}
+		dd := json.NewDecoder(bytes.NewReader(raw))
+		dd.UseNumber()
+		if dd.Decode(&v) != nil {
+			return "unparsable"
+		}
+		switch x := v.(type) {
+		case string:
+			out = append(out, key+"="+hx(x))
+		case bool:
+			out = append(out, key+"="+hx(strconv.FormatBool(x)))
+		case json.Number:
+			t := x.String()
+			if c05Kind(typ, key) == "float" {
+				if fv, err := strconv.ParseFloat(t, 64); err == nil {
+					t = strconv.FormatFloat(fv, 'g', -1, 64)
+				}
+			}
+			out = append(out, key+"="+hx(t))
+		}
+	}
+	if len(out) == 0 {
+		return "-"
+	}
+	return strings.Join(out, ",")
 }
 
 func c05Colls(o *osm.OSM) string {
@@ -838,6 +971,32 @@ func c05Gen(r *Rng, tier string, emit func(string)) {
 			it = append(it, fmt.Sprintf("%d:%d:%d", 1+r.I64n(1<<40), r.Intn(9), r.Intn(99)))
 		}
 		emit(strings.TrimSpace("wn " + strings.Join(it, ",")))
+	}
+	var rtypes []string
+	for t := range c05KeyName {
+		rtypes = append(rtypes, t)
+	}
+	sortStrings(rtypes)
+	for i := 0; i < 2*n; i++ {
+		t := rtypes[r.Intn(len(rtypes))]
+		var kv, dkv []string
+		for _, fk := range c05Fields(t) {
+			text := c04RandText(r, fk[1])
+			kv = append(kv, fk[0]+"="+hx(text))
+			if r.Chance(75) && !(fk[1] == "ptime" && text == "") {
+				dkv = append(dkv, c05KeyName[t][fk[0]]+"="+hx(text))
+			}
+		}
+		emit("jfields " + t + " " + strings.Join(kv, ","))
+		if r.Chance(30) {
+			dkv = append(dkv, "x_unknown="+hx("zzz"))
+		}
+		p := r.Perm(len(dkv))
+		sh := make([]string, len(dkv))
+		for a, b := range p {
+			sh[a] = dkv[b]
+		}
+		emit(strings.TrimSpace("jdecode " + t + " " + strings.Join(sh, ",")))
 	}
 	kinds := []string{"node", "way", "relation", "changeset", "note", "user", "osm", "change", "osm"}
 	for i := 0; i < n; i++ {
